@@ -6,10 +6,13 @@
 #include <dlfcn.h>
 
 void suite_wire(int), suite_hdr(int), suite_cksum(int), suite_endian(int), suite_valid(int);
+void suite_rt(int), suite_nsc(int), suite_recon(int), suite_rsmat(int), suite_xor(int), suite_need(int);
 
 static struct { const char *name; void (*fn)(int); } SUITES[] = {
     { "wire", suite_wire }, { "hdr", suite_hdr }, { "cksum", suite_cksum },
     { "endian", suite_endian }, { "valid", suite_valid },
+    { "rt", suite_rt }, { "nsc", suite_nsc }, { "recon", suite_recon }, { "rsmat", suite_rsmat },
+    { "xor", suite_xor }, { "need", suite_need },
 };
 
 int main(int argc, char **argv) {
